@@ -662,7 +662,7 @@ pub async fn catch_up_sub(
         }
     };
 
-    forward_sub_to_sender(matcher, sub_rx, evt_tx, params.skip_rows).await
+    forward_sub_to_sender(matcher, sub_rx, evt_tx, params.skip_rows, last_change_id).await
 }
 
 pub async fn upsert_sub(
@@ -685,6 +685,7 @@ pub async fn upsert_sub(
             sub_rx,
             tx,
             params.skip_rows,
+            ChangeId(0),
         ));
 
         bcast_write.insert(handle.id(), sub_tx.clone());
@@ -835,6 +836,7 @@ async fn forward_sub_to_sender(
     mut sub_rx: broadcast::Receiver<(Bytes, QueryEventMeta)>,
     tx: mpsc::Sender<(Bytes, QueryEventMeta)>,
     skip_rows: bool,
+    mut last_change_id: ChangeId,
 ) {
     info!(sub_id = %handle.id(), "forwarding subscription events to a sender");
 
@@ -866,6 +868,14 @@ async fn forward_sub_to_sender(
             )
         {
             continue;
+        }
+        // the receiver handed over by the catch-up can still hold events the
+        // catch-up already delivered from the change log
+        if let QueryEventMeta::Change(change_id) = meta {
+            if change_id <= last_change_id {
+                continue;
+            }
+            last_change_id = change_id;
         }
         if let Err(e) = tx.send((event_buf, meta)).await {
             warn!(sub_id = %handle.id(), "could not send subscription event to channel: {e}");
